@@ -223,6 +223,9 @@ func c18(w *core.World, r *core.Report) {
 					r.Check(core.GuardedByErrNil(ret, edit), "TYPESTATE", core.Site(fn, "success after EditConfig ok"), w.InstrPos(ret), "success must imply edit-config succeeded")
 				} else {
 					r.Check(!core.CanFollow(edit, ret), "TYPESTATE", core.Site(fn, "success without EditConfig"), w.InstrPos(ret), "a success return that does not follow edit-config on every path must not follow it on any (empty-document shortcut)")
+					okEmpty := false
+					core.WithHost(fn, func() { okEmpty = guardedByEmptyDoc(ret) })
+					r.Check(okEmpty, "TYPESTATE", core.Site(fn, "success without EditConfig is the empty-document shortcut"), w.InstrPos(ret), "the only change that may be answered with success without an edit-config is the empty one (len(xdoc) == 0): a 'same as last time' shortcut answers success for a change the device may have lost")
 				}
 			}
 			continue
@@ -249,7 +252,9 @@ func c18(w *core.World, r *core.Report) {
 				if core.CanFollow(edit, ret) {
 					r.Check(core.GuardedByErrNil(ret, commit) && core.GuardedByErrNil(ret, edit), "TYPESTATE", core.Site(fn, "success after Commit ok"), w.InstrPos(ret), "success must imply edit-config and commit succeeded")
 				} else {
-					r.OK("TYPESTATE", core.Site(fn, "success without EditConfig"), w.InstrPos(ret), "empty-document shortcut: no driver call on any path to this return")
+					okEmpty := false
+					core.WithHost(fn, func() { okEmpty = guardedByEmptyDoc(ret) })
+					r.Check(okEmpty, "TYPESTATE", core.Site(fn, "success without EditConfig"), w.InstrPos(ret), "the only change that may be answered with success without an edit-config is the empty one (len(xdoc) == 0)")
 				}
 				continue
 			}
@@ -351,14 +356,19 @@ func c18(w *core.World, r *core.Report) {
 
 // guardedByNonEmptyDoc: x executes only on the false outcome of a `len(doc) == 0` test
 // (or the true outcome of len(doc) != 0 / > 0) where doc comes from WriteToString.
-func guardedByNonEmptyDoc(x ssa.Instruction) bool {
+func guardedByNonEmptyDoc(x ssa.Instruction) bool { return guardedByDocLen(x, false) }
+
+// guardedByEmptyDoc: x executes only on the len(<rendered document>) == 0 outcome.
+func guardedByEmptyDoc(x ssa.Instruction) bool { return guardedByDocLen(x, true) }
+
+func guardedByDocLen(x ssa.Instruction, wantEmpty bool) bool {
 	for _, g := range core.GuardsOf(x) {
 		a, b, eqOnTrue, ok := core.EqTest(g.If.Cond)
 		if !ok {
 			continue
 		}
 		isEq := eqOnTrue == g.CondTrue()
-		if isEq {
+		if isEq != wantEmpty {
 			continue
 		}
 		lenOf := func(v ssa.Value) bool {
